@@ -86,6 +86,19 @@ impl<T, const N: usize> Vec<T, N> {
         ensures r == old(self)@[index as int],
           final(self)@ == old(self)@.update(index as int, old(self)@.last()).drop_last()
     { unimplemented!() }
+    #[verifier::external_body] fn first(&self) -> (r: Option<&T>)
+        ensures r == (if self@.len() > 0 { Some(&self@[0]) } else { None }) { unimplemented!() }
+    #[verifier::external_body] fn last(&self) -> (r: Option<&T>)
+        ensures r == (if self@.len() > 0 { Some(&self@[self@.len() - 1]) } else { None }) { unimplemented!() }
+    #[verifier::external_body] fn get(&self, i: usize) -> (r: Option<&T>)
+        ensures r == (if i < self@.len() { Some(&self@[i as int]) } else { None }) { unimplemented!() }
+    #[verifier::external_body] fn pop(&mut self) -> (r: Option<T>)
+        ensures old(self)@.len() > 0 ==> r == Some(old(self)@[old(self)@.len() - 1]) && final(self)@ == old(self)@.drop_last(),
+                old(self)@.len() == 0 ==> r is None && final(self)@ == old(self)@,
+    { unimplemented!() }
+    #[verifier::external_body] fn truncate(&mut self, n: usize)
+        ensures final(self)@ == (if n < old(self)@.len() { old(self)@.subrange(0, n as int) } else { old(self)@ })
+    { unimplemented!() }
     #[verifier::external_body] fn at(&self, i: usize) -> (r: &T)
         requires i < self@.len() ensures *r == self@[i as int] { unimplemented!() }
     #[verifier::external_body] fn at_mut(&mut self, i: usize) -> (r: &mut T)
